@@ -103,6 +103,98 @@ CLAIMS.update({
         note=TB + "Assumes boomphf's parallel builder yields a valid MPHF under every schedule (dependency code)."),
 })
 
+BV_TECH = "abstract interpretation of monomorphic MIR with a per-bit provenance (ANF) domain; lengths / positions partitioned exhaustively, sequence contents abstract"
+AFF_TECH = DT_TECH + "; integer quantities carried as affine forms over named atoms, comparisons decided by lazily refined intervals (both outcomes explored), violations reported with a small integer witness found by a decision procedure over the recorded linear constraints"
+
+CLAIMS.update({
+    "C04": dict(
+        category="other", design_ref="DESIGN.md §4 C04", technique=DT_TECH + " (composition of the combine, step, driver, piece and score tables) + call-graph effect query",
+        text="Weakest claim of the set, stated as such: the equality of the sharded and the unsharded pipeline is a relational runtime fact and is NOT decided. "
+             "Decided are its mechanisms, each a necessary condition: BaseGraph::combine is a faithful concatenation in node order (and refuses mixed strandedness); "
+             "shard-boundary extensions survive (every Terminal row of the step table carries the untouched extensions; filter_kmers reaches no pruning "
+             "function); the re-compression driver prunes → builds → finishes → prunes for every censoring scenario, with the complete graph-route step table, "
+             "growth loop and builder; pieces and their boundary extensions use the same (start, len) of the same read; the shard score is a permutation "
+             "look-up that is strand-symmetric in reverse-complement mode.",
+        note=DT_NOTE + "Not decided: equality of the two resulting graphs."),
+    "C05": dict(
+        category="other", design_ref="DESIGN.md §4 C05, Appendix B.7", technique=DT_TECH + "; library models for stable sort / group_by; bit-vector lemma for bucket()",
+        text="Decides S(C05): pass ranges tile [0,256) as consecutive half-open intervals for 14 memory budgets (1…5000 slices); abstract runs of filter_kmers "
+             "with scripted observations — all identity patterns of three observations × all placements of their k-mers in first/middle/last buckets × 1 and 3 "
+             "passes (thorough 1,2,3,7 × stranded/unstranded): each observation summarised exactly once, with its k-mer's other observations, in input order, "
+             "with its sequence's label, all_kmers ascending; canonicalisation table (key form, extensions reverse-complemented on flip, bucket computed from "
+             "the stored key); emission table; bucket() = first four bases for every k-mer type; both summarizers (accept ⇔ count ≥ untruncated threshold; "
+             "union of extensions; data); the flanking-extension iterator.",
+        note=DT_NOTE + "Models: slice::sort_by_key is stable, itertools::group_by groups consecutive equal keys (library contracts). Not decided: equality with a reference grouping on data. "
+             "The suggested run-time hook (forcing many passes) is not needed and not used: pass counts are driven abstractly."),
+    "C06": dict(
+        category="other", design_ref="DESIGN.md §4 C06", technique=DT_TECH + " restricted to the strandedness columns; bit-vector lemmas for canonical forms and Exts::rc",
+        text="Decides S(C06): STRAND-GUARD — canonicalising operations (min_rc, min_rc_flip, reverse-complement index probes, palindrome stops) are reached exactly "
+             "when unstranded in both step functions, find_link, filter_kmers, both censoring functions and compress_kmers_no_exts (rows of their tables); "
+             "min_rc_flip/min_rc/is_palindrome tables for every k-mer type (reported key = smaller strand); Exts::rc lemma and its use on flipped observations; "
+             "flag plumbing through every public entry, the drivers and combine.",
+        note=DT_NOTE + "Not decided: invariance of whole outputs under reverse-complementing reads (relational)."),
+    "C07": dict(
+        category="other", design_ref="DESIGN.md §4 C07, Appendix B.8", technique=AFF_TECH + "; bit-level support check of the comparison; dominance rule for narrowing casts",
+        text="Decides S(C07): MinPos::cmp/partial_cmp tables (score first, ties to the larger position, Equal on the diagonal only) and that the comparison depends on all "
+             "64 bits of both scores; Scanner::scan interpreted on 8 (thorough 11) small windows (len,k,p) with the p-mer scores unknown — every ordering of the scores "
+             "incl. ties explored, the produced intervals checked against all clauses of the statement (start order, exact k-1 overlap, lengths in [k,2k-p], "
+             "minimizer = p-mer at the reported position, inside every k-mer, minimal, no early end); scores never truncated before comparison; every narrowing "
+             "`as` cast in scan dominated by a bounding assertion.",
+        note=DT_NOTE + "Window sizes are bounded; the general case rests on the uniformity of the loop body in the position."),
+    "C08": dict(
+        category="other", design_ref="DESIGN.md §4 C08, Appendix B.9", technique=AFF_TECH,
+        text="Decides S(C08): the shard score is perm[rank(p)] and, in reverse-complement mode, the minimum of the permutation look-ups of both strands (both "
+             "msp_sequence and simple_scan); the shard id is the rank of the canonical minimizer; every piece is read[start..start+len] and its boundary extensions "
+             "are from_slice_bounds(read, start, len) — same read, same bounds; the flank tables (left ⇔ start>0 from base start-1, right ⇔ start+len<len(read) "
+             "from base start+len, nibble placement, none at a read end); Vmer::from_slice writes every base; plus C07's scan and order tables.",
+        note=DT_NOTE + "That two occurrences of one k-mer see the same minimizer follows from C07's clauses and is not re-derived."),
+    "C13": dict(
+        category="other", design_ref="DESIGN.md §4 C13", technique=BV_TECH + "; " + AFF_TECH,
+        text="Decides S(C13): block-walk lemmas — DnaString::get_kmer and Lmer::get_kmer return exactly bases pos..pos+K for every k-mer type and every start "
+             "position across up to five storage words (incl. K>32 spanning three words), with the container abstract; k-mer iterator tables with affine "
+             "positions (yield while pos ≤ len, roll by extend_right(bases[pos]), start at pos=K with the k-mer at 0 ⇒ exactly max(0,n-K+1) items in order; "
+             "flanking extensions, caller's boundary extensions only at the two ends); first/last/terminal accessors; byte containers; slice remap tables; bulk "
+             "constructors' lockstep.",
+        note=DT_NOTE + "Containers are assumed to satisfy their representation invariant (C14/C17 show every writer preserves it)."),
+    "C14": dict(
+        category="other", design_ref="DESIGN.md §4 C14", technique=BV_TECH + "; who-writes-field enumeration; derive/field-order query",
+        text="Decides S(C14): the representation invariant (ceil(len/32) words, zero padding, base i in word i/32 lane 31-i%32) is established by new/with_capacity/"
+             "blank(n) (n=0..70)/clear and preserved by push at every length 0..66, extend from lengths {0,1,31,32,33} by 0..70 bases, from_bytes, set_mut, "
+             "from_acgt_bytes on both the AVX2 and scalar path for lengths 0..100; get/rc/reverse/to_bytes/ndiffs lemmas; every writer of (storage,len) found in "
+             "MIR is covered; fields private; Eq/Ord/Hash derived with storage before len; PackedDnaStringSet::get/add tables.",
+        note=TB + "Pushed values are masked to two bits by the code (checked); extend asserts bases < 4."),
+    "C15": dict(
+        category="other", design_ref="DESIGN.md §4 C15, Appendix B.10", technique=AFF_TECH + "; view-discipline harness (reads of the backing string outside the view are observed)",
+        text="Decides S(C15): remap tables with affine coordinates for get/get_kmer/slice/rc under the flag and for prefix/suffix/slice constructors with their "
+             "range guards (closed under composition ⇒ any nesting depth); every renderer/converter/comparison (bytes, ascii, to_dna_string, to_owned, Display, Debug, "
+             "==) reads positions 0..len through the view and never the backing string; hamming_dist covers every position exactly once, self against other at "
+             "equal view positions, for lengths across block boundaries (0…1029) and forward / reverse-complemented / mixed operands, following derived views.",
+        note=DT_NOTE),
+    "C16": dict(
+        category="other", design_ref="DESIGN.md §4 C16", technique="exhaustive 256-entry tables of the byte functions from MIR; abstract interpretation of the AVX2 kernels with models of the 16 intrinsics (provenance lemma + per-lane table with all other lanes unconstrained); " + BV_TECH,
+        text="Decides S(C16): scalar tables for all 256 byte values and their mutual agreement (round trip = upper-cased input, non-ACGT→A); pack_32_bases places "
+             "byte i's two low bits in base lane i (same as the scalar packer); convert_bases' output byte in a lane is a constant equal to base_to_bits(value) for "
+             "all 256 values in 4 lanes (thorough: all 32) with every other lane unconstrained (lane independence + table); from_acgt_bytes gives canonical storage "
+             "with every byte converted exactly once for lengths 0..100 on both paths; from_dna_string uses the same table; from_dna_only_string returns exactly the "
+             "maximal valid runs for every validity pattern up to length 5 (thorough 7); from_acgt_bytes_hashn on {A,c,G,t,N,0xff}^≤3 leaves ACGT untouched and "
+             "substitutes hash(name,position)%4 with a fixed-key hasher; no random state reachable.",
+        note=TB + "Intel's documented semantics of the 16 AVX2 intrinsics (pysa/avx.py); std's chunks(32) contract; str input is ASCII."),
+    "C18": dict(
+        category="other", design_ref="DESIGN.md §4 C18, Appendix B.11", technique=AFF_TECH,
+        text="Decides S(C18) with affine counters under the struct invariant kmer_id ≤ num_kmers: next() returns None exactly at the end and otherwise yields/rolls/"
+             "advances by one; nth(n) returns None exactly when kmer_id+n ≥ num_kmers; after either call the counter is still ≤ num_kmers (no endless stream) and "
+             "every base/k-mer read lies inside the node (no neighbour's k-mer, no out-of-range panic) — violations come with a concrete (kmer_id, num_kmers, n, K); "
+             "into_iter, size_hint, node iterators; fields private.",
+        note=DT_NOTE + "debug_assert! is compiled out and does not count as a guard. Not decided: boomphf's MPHF built from the iteration."),
+    "C20": dict(
+        category="other", design_ref="DESIGN.md §4 C20, Appendix B.12", technique="abstract interpretation of the writer functions on scripted graph shapes with `write!` templates decoded from the fmt::Arguments encoding in MIR; emitted text checked against JSON (parser) and the GFA line grammar + once-per-adjacency count; derive and field-count queries for serde",
+        text="Decides S(C20): JSON — for every shape with ≤3 nodes and 0–2 right-going links per node and five kinds of `rest`, the reconstructed output parses as "
+             "JSON and lists every node and every right-going link once; GFA — for every two-node graph with ≤3 (thorough ≤4) of the 10 possible adjacencies (incl. "
+             "circular self-links and both hairpins) one S line per node and each adjacency exactly once with correct orientation and K-1 overlap, for both "
+             "writers; Serialize/Deserialize derived for the nine persisted types and every declared field written.",
+        note=TB + "Graph shapes are bounded; value equality after a serde round trip is serde's contract; `rest` keys are assumed quote-free."),
+})
+
 NA_PENDING = "checker for this property is still being built in this commit; planned static clauses: DESIGN.md §4"
 
 
